@@ -17,7 +17,7 @@ BUDGET_S = {"quick": 150, "thorough": 2400}
 RULE = ("Random real git repositories (5-40 files, depth <=4; directories named a, b, b/b, names with spaces and dots, hidden "
         "files and directories, a .gitignore with dir/, *.gen.py and /rooted patterns) x 0-3 positional globs x 0-3 "
         "--ignore globs drawn from the four documented forms x {no diff, diff inside the globs, diff outside the globs, "
-        "diff naming an --ignore'd file, diff that also renames (git mv) one of its files} x cwd in {root, a subdirectory} x stdin in {real pty, BLOCKWATCH_TERMINAL_MODE, "
+        "diff naming an --ignore'd file, diff that also renames (git mv) one of its files, diff whose only change to an (unbalanced) file is the deletion of its first line} x cwd in {root, a subdirectory} x stdin in {real pty, BLOCKWATCH_TERMINAL_MODE, "
         "pipe}. Some files are symbolic links to regular files. Files in the expected scope carry one healthy block with one line-count violation; every other file is "
         "poisoned (unbalanced tags or invalid UTF-8). Observed: key set of `list` and of the diagnostics, exit status. "
         "Non-trivial = >=2 different exclusion mechanisms at work and >=1 poisoned file; distinct = hash of (tree, argv, mode).")
@@ -40,11 +40,20 @@ def _ext(path):
 
 
 def healthy(path, name):
+    """First line: a header that a change may delete (a -U0 diff then has the hunk `@@ -1 +0,0 @@`)."""
     ext = _ext(path)
     if ext == "md":
-        return '\n[//]: # (<block name="%s" line-count="<1">)\n\nword\n\nmore\n\n[//]: # (</block>)\n' % name
+        return 'header\n\n[//]: # (<block name="%s" line-count="<1">)\n\nword\n\nmore\n\n[//]: # (</block>)\n' % name
     o = OPENER[ext]
-    return '%s <block name="%s" line-count="<1">\nword\nmore\n%s </block>\n' % (o, name, o)
+    return '%s header\n%s <block name="%s" line-count="<1">\nword\nmore\n%s </block>\n' % (o, o, name, o)
+
+
+def unbalanced_with_header(path):
+    ext = _ext(path)
+    if ext == "md":
+        return 'header\n\n[//]: # (<block name="probe">)\n\nnever closed\n'
+    o = OPENER[ext]
+    return '%s header\n%s <block name="probe">\nnever closed\n' % (o, o)
 
 
 def poisoned(path, r, utf8_only=False):
@@ -97,6 +106,8 @@ def plan(tier, seed):
 
 def run_job(job, ctx):
     out = []
+    if job.get("k") == "witness-first-lines-deleted":
+        return [_witness_first_lines(ctx)]
     for j in range(job["n"]):
         r = rng("c15", job["seed"], job["i"], j)
         c = one_case(ctx, r, dict(job, j=j))
@@ -167,8 +178,17 @@ def one_case(ctx, r, desc):
         scope = {p for p in scope if not match_any(ignores, p)}
         files = {}
         names = {}
+        # probe: one in-scope file of the diff whose only change is the deletion of its first line and whose tags are unbalanced.
+        # Blocks of a file are only *listed* when the diff touches them, so "this file was examined" is observed through the hard
+        # error that an unbalanced file must raise.
+        probe = None
+        if diff_base and r.random() < 0.2:
+            cands = [x for x in diff_base if fin(x) == x and x in scope]
+            probe = r.choice(cands) if cands else None
         for i, p in enumerate(paths_base):
-            if fin(p) in scope:
+            if p == probe:
+                files[p] = unbalanced_with_header(p).encode()
+            elif fin(p) in scope:
                 names[fin(p)] = "k%d" % i
                 files[p] = healthy(p, names[fin(p)]).encode()
             else:
@@ -196,7 +216,9 @@ def one_case(ctx, r, desc):
                 full = os.path.join(root, p)
                 data = open(full, "rb").read()
                 if fin(p) in scope:
-                    if r.random() < 0.4:
+                    if p == probe:
+                        data = data.split(b"\n", 1)[1]                     # deletion of the file's first line only
+                    elif r.random() < 0.4:
                         data = data.replace(b"\nmore\n", b"\n", 1)        # a deletion-only change (with -U0: hunks with nothing on the new side)
                     else:
                         data = data.replace(b"\nword\n", b"\nword\nword two\n", 1)
@@ -254,7 +276,7 @@ def one_case(ctx, r, desc):
             "symlinks": ["in-scope" if p in scope else "out-of-scope" for p in links],
             "rename": ([] if not ren else ["same-dir" if os.path.dirname(ren[0]) == os.path.dirname(ren[1]) else "other-dir"]),
             "diff_dirs": special, "nglobs_nignores": ["%d/%d" % (len(globs), len(ignores))]}
-    wit = {"paths": paths, "gitignore": gitignore, "argv": argv, "mode": mode, "cwd": cwd_rel, "diff_files": diff_files, "symlinks": links, "renamed": ren,
+    wit = {"paths": paths, "gitignore": gitignore, "argv": argv, "mode": mode, "cwd": cwd_rel, "diff_files": diff_files, "symlinks": links, "renamed": ren, "probe": probe,
            "expected_scope": want, "diff": diff.decode("utf-8", "replace")[:3000], "desc": desc}
 
     def bad(sig, summary):
@@ -266,6 +288,23 @@ def one_case(ctx, r, desc):
     for rr, what in ((lst, "list"), (res, "run")):
         if bad_outcome(rr) or rr.cls == "usage":
             return bad("C15/%s-%s" % (what, rr.cls), "%s ended %s: %s" % (what, rr.cls, rr.err_text()[:300]))
+    if probe:
+        sets["probe"] = ["first-line-deleted-U%s" % ("0" if probe in emptied_entries(diff) else "n")]
+        named = [re.search(r'file "([^"]+)"', rr.err_text()) for rr in (lst, res)]
+        if all(rr.cls == "fail" and rr.diagnostics() is None for rr in (lst, res)) and all(m and m.group(1) == probe for m in named):
+            return Case(HELD, key=key, nontrivial=nontrivial, evals=2, sets=sets,
+                        counters={"files": len(paths), "poisoned_files": npoison, "in_scope_files": len(want), "probe_rejections": 1})
+        rest = sorted(scope - {probe})
+        if probe in emptied_entries(diff) and probe not in by_glob and lst.cls == "ok" and lst.listing() is not None and sorted(lst.listing()) == rest:
+            d = res.diagnostics() if res.cls in ("fail", "ok") else None
+            if (rest and res.cls == "fail" and d is not None and sorted(d) == rest) or (not rest and res.rc == 0 and not res.err.strip()):
+                # recorded finding (known_findings.json: first-lines-deleted-U0), labelled only when the whole observation is what that
+                # one substitution (entry with a single `+0,0` hunk = deleted file) predicts
+                return Case(VIOLATED, key=key, nontrivial=nontrivial, sig="C15/first-lines-deleted-U0", evals=2, sets=sets,
+                            summary="%s is named in the diff (single hunk `+0,0`: first line deleted, -U0) but not examined: its unbalanced tags pass" % probe,
+                            witness=dict(wit, probe=probe, observed={"list": lst.brief(2500), "run": res.brief(2500)}))
+        return bad("C15/diff-file-not-examined", "%s is named in the diff and has unbalanced tags, but list/run ended %s/%s: %s" % (
+            probe, lst.cls, res.cls, (lst.err_text() or res.err_text())[:300]))
     if lst.cls != "ok":
         why = _why(lst.err_text(), paths, scope, diff_files)
         return bad("C15/list-error/" + why, "`list` failed although every file in scope is healthy (%s): %s" % (why, lst.err_text()[:300]))
@@ -295,6 +334,49 @@ def one_case(ctx, r, desc):
                   "diff_files": diff_files, "in_scope": want[:8], "poisoned": npoison}
     return Case(HELD, key=key, nontrivial=nontrivial, evals=2, sets=sets, sample=sample,
                 counters={"files": len(paths), "poisoned_files": npoison, "in_scope_files": len(want)})
+
+
+def emptied_entries(diff):
+    """Files whose diff entry is a single hunk with nothing on the new side (`+0,0`) although the file is not deleted
+    (`+++` is not /dev/null): what `git diff --unified=0` prints when only the first line(s) of a file are deleted."""
+    out = set()
+    cur, hunks = None, []
+
+    def flush():
+        if cur and len(hunks) == 1 and re.match(r"@@ -\d+(,\d+)? \+0,0 @@", hunks[0]):
+            out.add(cur)
+    for line in diff.decode("utf-8", "replace").split("\n"):
+        if line.startswith("diff --git "):
+            flush()
+            cur, hunks = None, []
+        elif line.startswith("+++ ") and not hunks:
+            t = line[4:].split("\t")[0]
+            cur = None if t == "/dev/null" else (t[2:] if t.startswith("b/") else t)
+        elif line.startswith("@@ "):
+            hunks.append(line)
+    flush()
+    return out
+
+
+def _witness_first_lines(ctx):
+    """Deterministic reproduction of the recorded finding: a -U0 diff that deletes only a file's first line."""
+    root = run.make_repo({}, real_git=True)
+    try:
+        run.write_files(root, {"pkg/a.py": healthy("pkg/a.py", "k0").encode(), "pkg/other.py": b"x = 1\n"})
+        run.git(root, "add", "-A")
+        run.git(root, "commit", "-q", "-m", "base")
+        run.write_files(root, {"pkg/a.py": healthy("pkg/a.py", "k0").encode().split(b"\n", 1)[1]})
+        diff = run.git(root, "diff", "-U0")
+        lst = run.run(ctx.bin("rel"), ["list"], root, stdin=diff, env={})
+    finally:
+        run.rm(root)
+    key = h(["witness-first-lines-deleted"])
+    listing = lst.listing() if lst.cls == "ok" else None
+    if listing is not None and sorted(listing) == ["pkg/a.py"]:
+        return Case(HELD, key=key, nontrivial=False, evals=1, counters={"witness_first_lines_deleted_ok": 1})
+    return Case(VIOLATED, key=key, nontrivial=False, evals=1, sig="C15/first-lines-deleted-U0",
+                summary="`git diff -U0` deleting only line 1 of pkg/a.py: the file named in the diff is not examined (list: %s)" % lst.brief(300),
+                witness={"diff": diff.decode(), "observed": lst.brief(2000)})
 
 
 def _why(err, paths, scope, diff_files):
